@@ -75,6 +75,9 @@ type stageJob struct {
 	Kill  bool `json:"kill,omitempty"`
 	KillK int  `json:"kill_k,omitempty"`
 	KillT int  `json:"kill_t,omitempty"`
+	// CancelFirst: the start-up is first attempted with an already cancelled context (the process is told to stop
+	// while it loads: SIGTERM during start) and abandoned, then the store is started normally on the same directory
+	CancelFirst bool `json:"cancel_first,omitempty"`
 }
 
 type docStatus struct {
@@ -158,6 +161,12 @@ func c01Handle(raw json.RawMessage) any {
 	}
 	res := stageResult{AppendErr: map[int]string{}}
 	cfg := &fracmanager.Config{DataDir: job.Dir, FracSize: 100 * consts.MB, TotalSize: 1000 * consts.MB, CacheSize: 10 * consts.MB, ShouldReplay: true}
+	if job.CancelFirst {
+		ctx0, cancel0 := context.WithCancel(context.Background())
+		cancel0()
+		cfg0 := *cfg
+		_ = fracmanager.NewFracManager(&cfg0).Load(ctx0) // whatever it returns: the process goes away
+	}
 	fm := fracmanager.NewFracManager(cfg)
 	if err := fm.Load(context.Background()); err != nil {
 		res.LoadErr = err.Error()
